@@ -23,6 +23,7 @@ import (
 	"strings"
 	"testing"
 
+	"golang.org/x/text/language"
 	"seehuhn.de/go/pdf"
 	"seehuhn.de/go/pdf/verif/internal/gen"
 	"seehuhn.de/go/pdf/verif/internal/indep/bridge"
@@ -30,6 +31,7 @@ import (
 	"seehuhn.de/go/pdf/verif/internal/indep/syntax"
 	"seehuhn.de/go/pdf/verif/internal/vt"
 	"seehuhn.de/go/pdf/verif/internal/wprog"
+	"seehuhn.de/go/xmp"
 )
 
 func TestMain(m *testing.M) { vt.Main(m) }
@@ -111,11 +113,17 @@ type Case struct {
 	Nodes      []Node `json:"nodes"`
 	Writer     string `json:"writer"` // "lib" | "serial"
 	XRefStream bool   `json:"xref_stream,omitempty"`
-	Seed       uint64 `json:"seed,omitempty"` // rendering choices of the serialiser
-	Src        Config `json:"src"`
-	Tgt        Config `json:"tgt"`
-	PreAlloc   int    `json:"pre_alloc,omitempty"` // target references allocated before copying starts
-	Calls      []Call `json:"calls"`
+	// SrcMeta (library source, PDF >= 1.4): the source has document-level XMP
+	// metadata; 1 = Flate-compressed (encrypted like every stream), 2 =
+	// WriterOptions.DocumentMetadata.Plaintext (stored unencrypted in an
+	// encrypted file, PDF >= 1.6).  The Writer makes it object 1; its model
+	// (dictionary and bytes) is taken from the source Reader.
+	SrcMeta  int    `json:"src_meta,omitempty"`
+	Seed     uint64 `json:"seed,omitempty"` // rendering choices of the serialiser
+	Src      Config `json:"src"`
+	Tgt      Config `json:"tgt"`
+	PreAlloc int    `json:"pre_alloc,omitempty"` // target references allocated before copying starts
+	Calls    []Call `json:"calls"`
 
 	obs *observed
 }
@@ -128,7 +136,9 @@ type observed struct {
 }
 
 const (
-	cryptNameNum = 2 // library source: object holding the name /Crypt (one digit, so that "2 0 R " is as long as "/Crypt")
+	metaNum      = 1  // library source: the document metadata stream (allocated by NewWriter)
+	libPagesNum  = 25 // library source: the page tree root
+	cryptNameNum = 2  // library source: object holding the name /Crypt (one digit, so that "2 0 R " is as long as "/Crypt")
 	firstNodeNum = 3
 	auxBase      = 40 // auxiliary objects of node i: auxBase+10*i+k
 	libAllocs    = 170
@@ -169,7 +179,8 @@ type srcObj struct {
 	dict     gen.O // stream dictionary including /Filter and /DecodeParms
 	data     []byte
 	aux      bool
-	crypt    int // 1: /Filter must be an array starting with the name /Crypt; 2: with a reference to it
+	meta     bool // the source's document metadata stream
+	crypt    int  // 1: /Filter must be an array starting with the name /Crypt; 2: with a reference to it
 }
 
 type model struct {
@@ -446,7 +457,17 @@ func writerOptions(cfg Config) *pdf.WriterOptions {
 func (c *Case) writeLib(m *model) ([]byte, error) {
 	v := c.srcVersion()
 	sink := newSink(c.Src.Seekable)
-	w, err := pdf.NewWriter(sink, v, writerOptions(c.Src))
+	opt := writerOptions(c.Src)
+	if c.SrcMeta != 0 {
+		packet := xmp.NewPacket()
+		dc := &xmp.DublinCore{}
+		dc.Title.Set(language.Und, "C11 source document")
+		if err := packet.Set(dc); err != nil {
+			return nil, err
+		}
+		opt.DocumentMetadata = &pdf.MetadataStream{Data: packet, Plaintext: c.SrcMeta == 2}
+	}
+	w, err := pdf.NewWriter(sink, v, opt)
 	if err != nil {
 		return nil, err
 	}
@@ -456,7 +477,7 @@ func (c *Case) writeLib(m *model) ([]byte, error) {
 	for i := 0; i < libAllocs; i++ {
 		w.Alloc()
 	}
-	pages := mkRef(1, 0)
+	pages := mkRef(libPagesNum, 0)
 	w.GetMeta().Catalog.Pages = pages
 	if err := w.Put(pages, pdf.Dict{"Type": pdf.Name("Pages"), "Kids": pdf.Array{}, "Count": pdf.Integer(0)}); err != nil {
 		return nil, err
@@ -739,6 +760,20 @@ func runCase(c *Case) error {
 	}
 	if err := sourceAsModelled(src, m); err != nil {
 		return &harnessError{err}
+	}
+	if c.Writer == "lib" && c.SrcMeta != 0 {
+		// the document metadata stream is the Writer's own work: its model
+		// is what the source Reader shows
+		got, err := src.Get(mkRef(metaNum, 0), true)
+		stm, ok := got.(*pdf.Stream)
+		if err != nil || !ok || stm.Dict["Type"] != pdf.Name("Metadata") {
+			return &harnessError{fmt.Errorf("object %d of the source is not the metadata stream: %s, %v", metaNum, vt.Show(got), err)}
+		}
+		body, err := decodeAll(src, stm)
+		if err != nil || !bytes.Contains(body, []byte("C11 source document")) {
+			return &harnessError{fmt.Errorf("source metadata stream: %d bytes, %v", len(body), err)}
+		}
+		m.add(&srcObj{ref: mkRef(metaNum, 0), isStream: true, dict: gen.FromPDF(stm.Dict), data: body, meta: true})
 	}
 
 	// ---- target ----------------------------------------------------------
